@@ -363,10 +363,10 @@ def main(prop, tier="quick", seed=None, replay=None):
         os.makedirs(os.path.join(VERIF, "replays"), exist_ok=True)
         if unlisted:
             # shrink up to 3 failures: prefer spec failures (code 1/3), smallest first
-            order = sorted(unlisted, key=lambda i: (0 if codes[i] in (1, 3) else 1, len(json.dumps(cases[i]))))
+            order = sorted(unlisted, key=lambda i: (0 if codes[i] in (1, 3, 5) else 1, len(json.dumps(cases[i]))))
             done_kinds = set()
             for i in order[:40]:
-                kind = "failing-input" if codes[i] in (1, 3) else "correspondence-broken"
+                kind = "failing-input" if codes[i] in (1, 3, 5) else "correspondence-broken"
                 if kind in done_kinds:
                     continue
                 done_kinds.add(kind)
@@ -374,7 +374,7 @@ def main(prop, tier="quick", seed=None, replay=None):
                     c2, o2, cd2 = cases[i], obs[i], 4
                 else:
                     c2, o2, cd2 = shrink(mod, cases[i], obs[i], codes[i], workdir)
-                kind = "failing-input" if cd2 in (1, 3) else "correspondence-broken"
+                kind = "failing-input" if cd2 in (1, 3, 5) else "correspondence-broken"
                 h = hashlib.sha1(json.dumps(c2, sort_keys=True).encode()).hexdigest()[:10]
                 path = os.path.join(VERIF, "replays", f"{prop}-{h}.json")
                 json.dump({"property": prop, "kind": kind, "verdict_code": cd2, "seed": seed, "tier": tier,
@@ -383,6 +383,7 @@ def main(prop, tier="quick", seed=None, replay=None):
                            "meaning": {1: "the property's boolean specification fails on this input",
                                        3: "the implementation raised / returned a value outside the model's domain",
                                        2: "implementation differs from the Coq model on behaviour the property does not fix",
+                                       5: "the property's specification fails in exactly the way a recorded finding describes",
                                        4: "coqc could not evaluate the checker"}[cd2],
                            "replay": f"cd /verif && ./check {prop} --replay {path}",
                            "unshrunk_case": cases[i]}, open(path, "w"), indent=1)
